@@ -115,12 +115,27 @@ type helper struct {
 	nexp  int // calls expanded
 
 	needsFrame bool // uses defer or recover: can only become the body of a function literal
+
+	// a local function literal that is only ever called (name := func(...) {...}; name(...)): expanded like a helper
+	sig  *types.Signature
+	lit  *ast.FuncLit
+	def  *ast.AssignStmt
+	v    *types.Var
+	uses int
+}
+
+func (h *helper) signature() *types.Signature {
+	if h.obj != nil {
+		return h.obj.Type().(*types.Signature)
+	}
+	return h.sig
 }
 
 type normalizer struct {
 	fset     *token.FileSet
 	res      *Result
 	helpers  map[*types.Func]*helper
+	lits     map[*types.Var]*helper
 	seq      int
 	mark     token.Pos
 	callPos  token.Pos
@@ -141,9 +156,9 @@ const markPos = token.Pos(1)
 // Normalize expands calls to functions that are not in the inventory. It
 // rewrites pk.Syntax in place and re-type-checks the module packages; pkgs must
 // be the module's packages, all maps every loaded package by path.
-func Normalize(fset *token.FileSet, pkgs []*packages.Package, all map[string]*packages.Package, known map[string]bool) (*Result, error) {
+func Normalize(fset *token.FileSet, pkgs []*packages.Package, all map[string]*packages.Package, known map[string]bool, knownLits map[string]map[string]bool) (*Result, error) {
 	n := &normalizer{fset: fset, res: &Result{Orig: map[token.Pos]token.Pos{}, Changed: map[*packages.Package]bool{}},
-		helpers: map[*types.Func]*helper{}, origDecl: map[*ast.FuncDecl]*ast.FuncDecl{}, rew: map[*ast.FuncDecl]bool{},
+		helpers: map[*types.Func]*helper{}, lits: map[*types.Var]*helper{}, origDecl: map[*ast.FuncDecl]*ast.FuncDecl{}, rew: map[*ast.FuncDecl]bool{},
 		wrappers: map[*ast.BlockStmt]bool{}, addImp: map[*ast.File]map[string]string{}, removed: map[*packages.Package][]removedDecl{}}
 	type declIn struct {
 		d  *ast.FuncDecl
@@ -173,8 +188,14 @@ func Normalize(fset *token.FileSet, pkgs []*packages.Package, all map[string]*pa
 			}
 		}
 	}
+	// local function literals that the reference tree does not have and that are only ever called
+	if knownLits != nil {
+		for _, di := range decls {
+			n.collectLits(di.d, di.pk, di.f, knownLits[di.pk.PkgPath])
+		}
+	}
 	sort.Strings(n.res.NewFuncs)
-	if len(n.helpers) == 0 {
+	if len(n.helpers) == 0 && len(n.lits) == 0 {
 		return n.res, nil
 	}
 	for _, h := range n.helpers {
@@ -275,6 +296,15 @@ func Normalize(fset *token.FileSet, pkgs []*packages.Package, all map[string]*pa
 			}
 		}
 	}
+	// a local literal whose every call was expanded is no longer named
+	for _, h := range n.lits {
+		if h.nexp > 0 && h.nexp == h.uses {
+			h.def.Lhs[0] = &ast.Ident{Name: "_", NamePos: h.def.Lhs[0].Pos()}
+			h.def.Tok = token.ASSIGN
+			h.def.Rhs[0] = &ast.BasicLit{Kind: token.INT, Value: "0", ValuePos: h.def.Rhs[0].Pos()}
+			n.res.Removed = append(n.res.Removed, h.key)
+		}
+	}
 	// imports the expanded bodies need in the caller's file
 	for f, m := range n.addImp {
 		var names []string
@@ -373,7 +403,10 @@ func (n *normalizer) vet(h *helper) {
 				return true // pkg.Name: only the qualifier has to resolve
 			}
 			if o.Parent() != h.pk.Types.Scope() {
-				return true // a local of the declaration
+				if h.lit == nil || (o.Pos() >= h.lit.Pos() && o.Pos() < h.lit.End()) {
+					return true // a local of the declaration
+				}
+				// a variable of the enclosing function that the literal captures: must mean the same at the call
 			}
 		}
 		if prev, ok := h.free[id.Name]; ok && prev != o {
@@ -402,6 +435,10 @@ func (n *normalizer) rewriteDecl(d *ast.FuncDecl, pk *packages.Package, f *ast.F
 		if c, ok := x.(*ast.CallExpr); ok && !has {
 			if fn := typeutil.StaticCallee(pk.TypesInfo, c); fn != nil && n.helpers[fn] != nil {
 				has = true
+			} else if id, ok := ast.Unparen(c.Fun).(*ast.Ident); ok && len(n.lits) > 0 {
+				if v, ok := pk.TypesInfo.Uses[id].(*types.Var); ok && n.lits[v] != nil {
+					has = true
+				}
 			}
 		}
 		return !has
@@ -422,6 +459,11 @@ func (n *normalizer) rewriteDecl(d *ast.FuncDecl, pk *packages.Package, f *ast.F
 func (r *rewriter) helperOf(c *ast.CallExpr) *helper {
 	fn := typeutil.StaticCallee(r.pk.TypesInfo, c)
 	if fn == nil {
+		if id, ok := ast.Unparen(c.Fun).(*ast.Ident); ok && len(r.n.lits) > 0 {
+			if v, ok := r.pk.TypesInfo.Uses[id].(*types.Var); ok {
+				return r.n.lits[v]
+			}
+		}
 		return nil
 	}
 	return r.n.helpers[fn]
@@ -650,7 +692,7 @@ func (r *rewriter) stmt(s ast.Stmt) []ast.Stmt {
 		st := &evalState{}
 		if len(s.Results) == 1 {
 			if c, ok := ast.Unparen(s.Results[0]).(*ast.CallExpr); ok {
-				if h, why := r.expandable(c); h != nil && h.obj.Type().(*types.Signature).Results().Len() > 1 {
+				if h, why := r.expandable(c); h != nil && h.signature().Results().Len() > 1 {
 					r.hoistCallOperands(c, &pre, st)
 					if !st.blocked {
 						s.Results = r.expand(c, h, &pre)
@@ -1202,7 +1244,7 @@ func (r *rewriter) hoist(e ast.Expr, pre *[]ast.Stmt, st *evalState, last *ast.C
 		}
 		h, why := r.expandable(x)
 		if h != nil && !st.blocked {
-			sig := h.obj.Type().(*types.Signature)
+			sig := h.signature()
 			if sig.Results().Len() == 1 {
 				res := r.expand(x, h, pre)
 				if x == last {
@@ -1785,4 +1827,83 @@ func (n *normalizer) recheck(pkgs []*packages.Package, all map[string]*packages.
 		}
 	}
 	return nil
+}
+
+
+// collectLits registers, as expandable helpers, the function literals of d that are bound to a local name the
+// reference tree does not know (name := func(...) {...}) and that are only ever called.
+func (n *normalizer) collectLits(d *ast.FuncDecl, pk *packages.Package, f *ast.File, known map[string]bool) {
+	info := pk.TypesInfo
+	type cand struct {
+		as  *ast.AssignStmt
+		id  *ast.Ident
+		lit *ast.FuncLit
+		v   *types.Var
+	}
+	var cands []cand
+	ast.Inspect(d.Body, func(x ast.Node) bool {
+		as, ok := x.(*ast.AssignStmt)
+		if !ok || as.Tok != token.DEFINE || len(as.Lhs) != 1 || len(as.Rhs) != 1 {
+			return true
+		}
+		id, ok := as.Lhs[0].(*ast.Ident)
+		if !ok || id.Name == "_" || known[id.Name] {
+			return true
+		}
+		lit, ok := as.Rhs[0].(*ast.FuncLit)
+		if !ok || (lit.Type.TypeParams != nil && len(lit.Type.TypeParams.List) > 0) {
+			return true
+		}
+		v, _ := info.Defs[id].(*types.Var)
+		if v == nil {
+			return true
+		}
+		cands = append(cands, cand{as, id, lit, v})
+		return true
+	})
+	if len(cands) == 0 {
+		return
+	}
+	callUses, allUses := map[*types.Var]int{}, map[*types.Var]int{}
+	ast.Inspect(d.Body, func(x ast.Node) bool {
+		switch y := x.(type) {
+		case *ast.CallExpr:
+			if id, ok := ast.Unparen(y.Fun).(*ast.Ident); ok {
+				if v, ok := info.Uses[id].(*types.Var); ok {
+					callUses[v]++
+				}
+			}
+		case *ast.Ident:
+			if v, ok := info.Uses[y].(*types.Var); ok {
+				allUses[v]++
+			}
+		}
+		return true
+	})
+	for _, c := range cands {
+		if callUses[c.v] == 0 || callUses[c.v] != allUses[c.v] {
+			continue // handed on as a value somewhere, or assigned again
+		}
+		sig, _ := info.TypeOf(c.lit).(*types.Signature)
+		if sig == nil {
+			continue
+		}
+		// a literal that calls itself or mentions its own name cannot be copied into itself
+		self := false
+		ast.Inspect(c.lit.Body, func(x ast.Node) bool {
+			if id, ok := x.(*ast.Ident); ok && info.Uses[id] == types.Object(c.v) {
+				self = true
+			}
+			return !self
+		})
+		if self {
+			continue
+		}
+		key := FuncKey(pk.PkgPath, d) + "$" + c.id.Name
+		h := &helper{key: key, decl: &ast.FuncDecl{Name: &ast.Ident{Name: c.id.Name, NamePos: c.lit.Pos()}, Type: c.lit.Type, Body: c.lit.Body},
+			pk: pk, file: f, calls: map[*helper]bool{}, sig: sig, lit: c.lit, def: c.as, v: c.v, uses: callUses[c.v]}
+		n.vet(h)
+		n.lits[c.v] = h
+		n.res.NewFuncs = append(n.res.NewFuncs, key)
+	}
 }
